@@ -53,7 +53,6 @@ FieldStart(k) == IF k = 1 THEN 0 ELSE LET F[j \in 1..k] == IF j = 1 THEN 0 ELSE 
 StageAligned == \A k \in 1..Len(consumed) : consumed[k].from = FieldStart(k) /\ consumed[k].to = FieldStart(k) + Fields[k]
 \* at the end the surplus handed to the message layer is exactly what follows the last field
 SurplusExact == stage > NStages => lo = FieldStart(NStages) + Fields[NStages] /\ hi <= delivered /\ hi >= lo
-=========================================================================
 -----------------------------------------------------------------------------
 \* Which torrent a handshake is for.  An encrypted exchange is keyed with the
 \* info-hash of one torrent (SKEY); the BitTorrent handshake that follows names
@@ -64,4 +63,4 @@ ServerAccepts(skey, named, served) == named \in served /\ skey \in served /\ ske
 \* the cases the binding runs (torrents A and B served, C not)
 AgreeCases == {[skey |-> k, named |-> n] : k \in {"A", "B"}, n \in {"A", "B", "C"}}
 AgreeSound == \A c \in AgreeCases : ServerAccepts(c.skey, c.named, {"A", "B"}) <=> (c.skey = c.named)
-====
+=============================================================================
